@@ -178,7 +178,13 @@ class ExprGen:
                     o['exp'] = 2
                 objs.append(o)
             if r.random() < self.symbols:
-                objs.append({'t': 'sym0', 'name': r.choice(['alpha', 'omega'])})
+                so = {'t': 'sym0', 'name': r.choice(['alpha', 'omega'])}
+                if r.random() < 0.4:      # powers of a plain symbol
+                    so['exp'] = r.choice([2, 2, 3])
+                objs.append(so)
+                if r.random() < 0.25:
+                    objs.append({'t': 'sym0', 'name': 'alpha'
+                                 if so['name'] == 'omega' else 'omega'})
             term = {'pref': r.choice(PREFS), 'objs': objs}
             if self.is_zero(term):
                 continue
